@@ -395,6 +395,19 @@ func (env *cenv) eval(x Expr) cval {
 		n.vars[t.Var] = cval{v: Val{k}, T: tInt}
 		lo := env.toInt64(env.eval(t.Lo))
 		hi := env.toInt64(env.eval(t.Hi))
+		if lo.IsConst() && hi.IsConst() && int64(hi.C)-int64(lo.C) <= 256 && int64(hi.C)-int64(lo.C) >= 0 {
+			// constant range: expand to a ground conjunction / disjunction
+			var parts []*Term
+			for i := int64(lo.C); i < int64(hi.C); i++ {
+				m := env.child()
+				m.vars[t.Var] = cval{k: big.NewInt(i)}
+				parts = append(parts, m.evalBool(t.Body))
+			}
+			if t.Exists {
+				return cval{v: Val{c.Or(parts...)}, T: tBool}
+			}
+			return cval{v: Val{c.And(parts...)}, T: tBool}
+		}
 		rng := c.And(c.Sle(lo, k), c.Slt(k, hi))
 		body := n.evalBool(t.Body)
 		if t.Exists {
@@ -906,6 +919,86 @@ func (env *cenv) evalCall(t ECall) cval {
 			env.errf("payload of non-interface")
 		}
 		return cval{v: Val{v.v[1]}, T: types.Typ[types.Uintptr]}
+	case "inmap", "mapval", "maplen":
+		// constant tables (constmap.go): inmap(table, key), mapval(table, key), maplen(table)
+		id, ok := t.Args[0].(EIdent)
+		if !ok || env.pkg == nil {
+			env.errf("%s: first argument must name a package-level map", name)
+		}
+		var g *ssa.Global
+		for _, sp := range e.P.ssaPkgs {
+			if sp.Pkg == env.pkg {
+				g, _ = sp.Members[id.Name].(*ssa.Global)
+			}
+		}
+		if g == nil {
+			env.errf("%s: %s is not a package-level variable", name, id.Name)
+		}
+		ci := e.P.constMapOf(g)
+		if ci.err != "" {
+			env.errf("%s: %s is not a constant table: %s", name, id.Name, ci.err)
+		}
+		if name == "maplen" {
+			return cval{k: big.NewInt(int64(len(ci.entries)))}
+		}
+		key := env.eval(t.Args[1])
+		if !isString(key.T) {
+			env.errf("%s: key must be a string", name)
+		}
+		if name == "inmap" {
+			return cval{v: Val{e.inTable(env.cur, ci.entries, key.v)}, T: tBool}
+		}
+		mt := g.Type().(*types.Pointer).Elem().Underlying().(*types.Map)
+		tag, word := c.Const(64, 0), c.Const(64, 0)
+		for i := len(ci.entries) - 1; i >= 0; i-- {
+			en := ci.entries[i]
+			eq := e.strEqConst(env.cur, key.v, en.key)
+			v := e.constMapValue(g, i, en)
+			tag, word = c.Ite(eq, v[0], tag), c.Ite(eq, v[1], word)
+		}
+		return cval{v: Val{tag, word}, T: mt.Elem()}
+	case "sametype":
+		a, b := env.eval(t.Args[0]), env.eval(t.Args[1])
+		return cval{v: Val{c.Eq(a.v[0], b.v[0])}, T: tBool}
+	case "zeroed":
+		// the object an interface value points to is all zero (dynamic type known on the path)
+		v := env.eval(t.Args[0])
+		tag := e.peelIte(env.cur, v.v[0])
+		if !tag.IsConst() {
+			if alts := env.cur.tagAlternatives(tag); len(alts) == 1 {
+				for k := range alts {
+					tag = c.Const(64, k)
+				}
+			}
+		}
+		zeroOf := func(T types.Type) *Term {
+			p, isP := T.Underlying().(*types.Pointer)
+			if !isP {
+				return c.True
+			}
+			obj := e.loadFrom(env.cur.h, v.v[1], p.Elem())
+			z := e.zeroVal(p.Elem())
+			var cs []*Term
+			for i := range obj {
+				cs = append(cs, c.Eq(obj[i], z[i]))
+			}
+			return c.And(cs...)
+		}
+		if !tag.IsConst() {
+			it, isI := v.T.Underlying().(*types.Interface)
+			if !isI {
+				env.errf("zeroed of a non-interface value")
+			}
+			var cs []*Term
+			for _, T := range e.P.implementers(it) {
+				cs = append(cs, c.Imp(c.Eq(tag, c.Const(64, e.P.tag(T))), zeroOf(T)))
+			}
+			return cval{v: Val{c.And(cs...)}, T: tBool}
+		}
+		if tag.C == 0 {
+			return cval{v: Val{c.True}, T: tBool}
+		}
+		return cval{v: Val{zeroOf(e.P.typeOfTag(tag.C))}, T: tBool}
 	case "nparts", "part":
 		// decimal text view (text.go): nparts(s, 'c'), part(s, 'c', k)
 		v := env.eval(t.Args[0])
